@@ -391,6 +391,9 @@ func specs(tier string) []FileSpec {
 			out = append(out, FileSpec{Pkg: "two", Services: []ServiceSpec{{Name: a, Methods: []MethodSpec{{"M", false, false}}}, {Name: b, Methods: []MethodSpec{{"Bar", false, true}}}}})
 			if tier == "thorough" {
 				for _, mn := range mNames {
+					if mn == "Bar" {
+						continue // (the second service already has a method Bar: a duplicate is not a valid definition)
+					}
 					for _, sh := range shapes[1:] {
 						out = append(out, FileSpec{Pkg: "two", Services: []ServiceSpec{{Name: a, Methods: []MethodSpec{{mn, sh[0], sh[1]}}}, {Name: b, Methods: []MethodSpec{{mn, sh[0], sh[1]}, {"Bar", true, true}}}}})
 					}
